@@ -161,6 +161,10 @@ def run(pid, tier="quick"):
                     reason = "CBMC timed out / failed without a verdict"
                 elif any("unwinding assertion" in f for f in failed) and all(("unwinding assertion" in f) for f in failed):
                     reason = "unwinding bound too small (no verdict)"
+                elif any(("not currently supported by Kani" in f) or ("unsupported_construct" in f) for f in failed) or \
+                        "not currently supported by Kani" in txt:
+                    # the (changed) code reaches something Kani cannot model: no verdict, never an alarm
+                    reason = "code reaches a construct Kani does not support: " + "; ".join(failed)[:200]
                 elif failed:
                     status = "violated"
                 else:
